@@ -145,7 +145,7 @@ var c14Check = register("C14", "c14.call", func(c *callCase) error {
 	return nil
 })
 
-const c14Rule = "C14: every exported entry point x {arbitrary byte strings incl. invalid UTF-8 and NUL, Unicode strings, empty, 1 MiB runs of combining marks, 4 MiB inputs} x Language in {every value in [-300,300], integer-width boundaries, rapid Int64} x entropy {nil, every length 0..4096} x word count {boundaries, rapid Int}; NewMnemonic under sources that fail for good after k bytes with each of 18 error kinds; thorough adds two coverage-guided native fuzz targets. Oracle: the call returns (panics are recovered and reported); a call that has not returned after 120 s is a hang. Non-trivial: an unsupported language, invalid UTF-8, a rejected size, or an input > 64 KiB; distinct by the whole call"
+const c14Rule = "C14: every exported entry point x {arbitrary byte strings incl. invalid UTF-8 and NUL, Unicode strings, empty, 1 MiB runs of combining marks, 4 MiB inputs, one token of a valid sentence replaced/prefixed/suffixed by a run (29 lengths 1..4096) of one lone invalid byte or NUL} x Language in {every value in [-300,300], integer-width boundaries, rapid Int64} x entropy {nil, every length 0..4096} x word count {boundaries, rapid Int}; NewMnemonic under sources that fail for good after k bytes with each of 18 error kinds; thorough adds two coverage-guided native fuzz targets. Oracle: the call returns (panics are recovered and reported); a call that has not returned after 120 s is a hang. Non-trivial: an unsupported language, invalid UTF-8, a rejected size, or an input > 64 KiB; distinct by the whole call"
 
 var c14Fns = []string{"NewMnemonic", "NewMnemonicByEntropy", "CheckMnemonic", "IsMnemonicValid", "MnemonicToSeed", "String"}
 
@@ -272,6 +272,25 @@ func TestC14_Grid(t *testing.T) {
 			run(&callCase{Fn: "IsMnemonicValid", Lang: int64(implLang[l]), Tail: text(strings.Join(w, " "))})
 			w[0] = string(r) + sent[0]
 			run(&callCase{Fn: "CheckMnemonic", Lang: int64(implLang[l]), Tail: text(strings.Join(w, "\u3000"))})
+		}
+	}
+	// one token of an acceptable-count sentence replaced by / prefixed with a run of one single byte that is not
+	// valid UTF-8 on its own (continuation bytes, overlong and truncated leads, surrogate leads, 0xff) or NUL:
+	// code that echoes, clips, folds or re-slices an unknown token walks such runs without finding a rune start
+	for li, l := range []ref.Lang{ref.Lang(0), ref.Lang(ref.NumLangs - 1), ref.Lang(ref.NumLangs / 2)} {
+		sent := strings.Split(ref.Encode(tableEntropiesSmall(int(l)), l), l.Sep())
+		for _, b := range []string{"\x80", "\xbf", "\xc0", "\xc2", "\xe0", "\xed", "\xf4", "\xff", "\x00"} {
+			for _, n := range []int{1, 2, 3, 4, 7, 8, 15, 16, 17, 31, 32, 33, 47, 48, 49, 50, 63, 64, 65, 127, 128, 129, 255, 256, 257, 1023, 1024, 1025, 4096} {
+				for _, pos := range []int{0, len(sent) / 2, len(sent) - 1} {
+					w := append([]string(nil), sent...)
+					w[pos] = strings.Repeat(b, n)
+					run(&callCase{Fn: []string{"CheckMnemonic", "IsMnemonicValid"}[(n+pos+li)%2], Lang: int64(implLang[l]), Tail: text(strings.Join(w, " "))})
+					w[pos] = strings.Repeat(b, n) + sent[pos]
+					run(&callCase{Fn: "CheckMnemonic", Lang: int64(implLang[l]), Tail: text(strings.Join(w, " "))})
+					w[pos] = sent[pos] + strings.Repeat(b, n)
+					run(&callCase{Fn: "CheckMnemonic", Lang: int64(implLang[l]), Tail: text(strings.Join(w, " "))})
+				}
+			}
 		}
 	}
 	// huge inputs
